@@ -148,6 +148,8 @@ let run_rf id ops =
     | ["vs"; ss], Some f -> "vs:" ^ verdict_str bs f (ints_of ss)
     | ["fo"; b; k], Some f -> (match flip f (int_of_string b) with
         | None -> "-" | Some f' -> "fo:" ^ session_str bs f' [int_of_string k; 1])
+    | ["fx"; b; rs], Some f -> (match flip f (int_of_string b) with
+        | None -> "-" | Some f' -> "fx:" ^ session_str bs f' (ints_of rs))
     | ["fv"; b; ss], Some f -> (match flip f (int_of_string b) with
         | None -> "-" | Some f' -> "fv:" ^ verdict_str bs f' (ints_of ss))
     | ["to"; l; k], Some f -> let l = int_of_string l in
